@@ -101,6 +101,26 @@ func (c11) Build(tier string, seed uint64) []any {
 			}
 		}
 	}
+	// pure primaries at high quality (colour conversion at the ends of the range)
+	for i, q := range []int{90, 95, 98, 100, 75, 50} {
+		for _, codec := range []string{"baseline", "extended"} {
+			r := gen.Sub(seed, "C11", "primaries", i)
+			cs = append(cs, &c11Case{Gen: "primaries", Codec: codec, C: 3, P: 8, Quality: q, W: 16 + r.Intn(24), H: 16 + r.Intn(24), Class: "primaries", CSeed: r.U64()})
+		}
+	}
+	// large busy images (deep Huffman trees)
+	for i, sz := range []int{256, 384, 512} {
+		if !th && i != int(seed%3) {
+			continue
+		}
+		for _, m := range c11Modes {
+			if m.c != 1 {
+				continue
+			}
+			r := gen.Sub(seed, "C11", "bignoise", i)
+			cs = append(cs, &c11Case{Gen: "bignoise", Codec: m.codec, C: 1, P: m.p, Quality: gen.Pick(r, 60, 75, 90, 100), W: sz, H: sz, Class: "noise", CSeed: r.U64()})
+		}
+	}
 	// large
 	nBig := 6
 	if th {
